@@ -14,6 +14,8 @@ import SdnsVerif.Model.Packer
   runs over the primitive "emit that many bytes if they fit" → `handled=t len=<n>` | `handled=f`.
 * `msg write <directPack> <internal> lib=<outcome>` → the model's `writeMsg` on the skeleton of the preceding
   `msg decide`: `direct:ok/<n> size=<n>` | `lib:<outcome>`
+* `msg serve <ub|ud|ts|tl> <directPack> lib=<outcome> ulen=<n>` → the model's `udpWrite`/`udpWriteMsg`/`tcpStage` beneath
+  `writeMsg` on the same skeleton: `sent=ok/<n>` | `sent=none err` | `panic`
 * `cache view <kinds>` → what admission keeps for that additional section: `ar=<n> compress=t` | `not-admitted` | `panic`
 * `pool own <events>` → `dup=f|t`: the ownership model run over the endings `ok|err|werr|panic|fail|decl`
 * `pool inspect` → `clean` (the model's pool invariant)
@@ -168,6 +170,42 @@ def step (st : State) (w : List String) : State × String :=
     match decide rest with
     | some (o, sk) => ({ st with last := some sk }, o)
     | none => (st, "bad-op")
+  -- `msg serve <ub|ud|ts|tl> <directPack> lib=<outcome> ulen=<n>`: `udpReply` / `tcpReply` on the last skeleton;
+  -- the library's outcome for the message is an observation (`ok/<len>`: that many bytes)
+  | ["msg", "serve", tr, dp, libo, ul] =>
+    match st.last, parseBool dp, kv "lib" libo, (kv "ulen" ul).bind String.toNat? with
+    | some sk, some d, some lo, some ulen =>
+      let pst : PState Rest (List (Option Nat)) := { buf := List.replicate packBufferSize 0x55 }
+      let lib := lineLib sk.pieces
+      let heap := heapOf sk.objs
+      let libOut : LibOut :=
+        if lo.startsWith "ok/" then
+          match (lo.drop 3).toString.toNat? with
+          | some n => .ok (List.replicate n 0)
+          | none => .err .pack
+        else if lo == "panic" then .panic else .err .pack
+      if lo == "panic" && !(d && (tryPack lib sk.m heap pst).handled) then (st, "panic") else
+      -- the transport's own pack of a declined message is the observed library outcome
+      let viaWrite := match (writeMsg lib sk.m heap pst d false).events with
+        | [.write b] => some b
+        | _ => none
+      if tr == "ub" || tr == "ud" then
+        let j : UdpJob := { tx := List.replicate 4096 0xEE }
+        let r := match viaWrite with
+          | some b => udpWrite j b false
+          | none => udpWriteMsg j libOut ulen
+        if r.2 then (st, s!"sent=ok/{r.1.staged.length}") else (st, "sent=none err")
+      else if tr == "ts" || tr == "tl" then
+        let r := match viaWrite with
+          | some b => tcpStage {} b
+          | none => match libOut with
+            | .ok b => tcpStage {} b
+            | _ => ({}, false)
+        match r.2, r.1.frames with
+        | true, [b] => (st, s!"sent=ok/{b.length}")
+        | _, _ => (st, "sent=none err")
+      else (st, "bad-op")
+    | _, _, _, _ => (st, "bad-op")
   | ["msg", "new", _, _] => ({ st with last := none }, "unmodelled")
   -- `msg write <directPack> <internal> lib=<library outcome>`: the model's `writeMsg` on the last skeleton
   | ["msg", "write", dp, int, libo] =>
